@@ -76,6 +76,9 @@ func registerNetStubs() {
 			}
 			return tuple{bytesToValue(ip), i.ipNetValue(bytesToValue(ipn.IP), bytesToValue(ipn.Mask)), zero(errT)}
 		case symstr:
+			if s.e.op == OpUF && s.e.name == "strcat" && s.e.args[1].op == OpStrLit && s.e.args[1].name == "/32" {
+				return i.hostCIDR(s.e.args[0], errT)
+			}
 			return i.symParseCIDR(s, errT)
 		}
 		panic("net.ParseCIDR: bad argument")
